@@ -801,6 +801,19 @@ func (g *gctx) definitions(max int) []*Def {
 				d.Body = append(d.Body, key(g.keyFor(kAny)))
 				g.label("key-in-body")
 			default:
+				if g.chance(15, "bodyBackslash") && !(len(d.Body) > 0 && d.Body[len(d.Body)-1].K != kCall && d.Body[len(d.Body)-1].K != kArg && d.Body[len(d.Body)-1].K != kKey) {
+					// literal text with a backslash (written \\\\ in the file). Never at
+					// the end of the body: whether a line ending in an escaped
+					// backslash continues is not documented
+					words := []string{"C:\\dir\\", "a\\", "\\", "x\\y", "\\\\srv"}
+					if last {
+						words = []string{"x\\y", "\\\\srv", "\\z"}
+					}
+					d.Body = append(d.Body, &Node{K: kRaw, S: g.pick(words, "bodyRaw")})
+					d.TopOnly = true
+					g.label("backslash-in-body")
+					continue
+				}
 				l := g.topLit(true)
 				// the loader trims the phrase: no blank at either end of the body
 				if first {
@@ -874,6 +887,9 @@ type layout struct {
 	continuations int
 	commentsIn    int
 	blankIn       int
+	topBreaks     int // continuations between two top-level pieces of a body
+	// .. of which directly after a literal (escaped) backslash
+	breakAfterBackslash int
 }
 
 func (l *layout) blanks(min, max int) string {
@@ -962,7 +978,28 @@ func (l *layout) file(defs []*Def) string {
 		} else {
 			sb.WriteByte(' ')
 		}
-		sb.WriteString(printTemplate(d.Body, l.sep, nil))
+		// the body, piece by piece: a line may also be broken between two
+		// top-level pieces (no blank before the backslash: it would be text;
+		// the next line loses its leading blanks, so it must not start with one)
+		for i, n := range d.Body {
+			if i > 0 && l.g.chance(12, "topBreak") && !(n.K == kLit && strings.HasPrefix(n.S, " ")) {
+				l.continuations++
+				l.topBreaks++
+				if i > 0 && d.Body[i-1].K == kRaw && strings.HasSuffix(d.Body[i-1].S, "\\") {
+					l.breakAfterBackslash++
+				}
+				sb.WriteByte('\\')
+				if l.g.chance(25, "trailComment") {
+					sb.WriteString(l.blanks(0, 2) + l.comment())
+				} else {
+					sb.WriteString(l.blanks(0, 1))
+				}
+				sb.WriteByte('\n')
+				sb.WriteString(l.filler(2, true))
+				sb.WriteString(l.blanks(0, 4))
+			}
+			sb.WriteString(printTemplate([]*Node{n}, l.sep, nil))
+		}
 		if l.g.chance(25, "endComment") {
 			sb.WriteString(l.blanks(0, 2) + l.comment())
 		} else {
